@@ -4,6 +4,15 @@ import re
 from .utils import split_remote_path
 
 
+def split_local_parts(remote_path: str) -> list[str]:
+    """Splits a remote path into the parts that can be used to build the local
+    path. The ``.`` and ``..`` parts do not name anything and would redirect the
+    local path (out of the download directory), they are dropped like empty
+    parts
+    """
+    return [part for part in split_remote_path(remote_path) if part not in ('.', '..')]
+
+
 class NamingStrategy:
     NAME = None
 
@@ -28,7 +37,7 @@ class DefaultNamingStrategy(NamingStrategy):
     """
 
     def apply(self, remote_path: str, local_dir: str, local_filename: str) -> tuple[str, str]:
-        return local_dir, split_remote_path(remote_path)[-1]
+        return local_dir, split_local_parts(remote_path)[-1]
 
 
 class KeepDirectoryStrategy(NamingStrategy):
@@ -37,7 +46,7 @@ class KeepDirectoryStrategy(NamingStrategy):
     def apply(self, remote_path: str, local_dir: str, local_filename: str) -> tuple[str, str]:
         # -1 filename
         # -2 the containing directory
-        remote_path_parts = split_remote_path(remote_path)
+        remote_path_parts = split_local_parts(remote_path)
 
         # Only a filename (not sure if this can occur)
         if len(remote_path_parts) == 1:
